@@ -356,6 +356,8 @@ def variational_spot_check(P, alpha, y, x, rng):
     if gp is None:
         return None, ""
     g, pull = gp
+    if alpha is None or np.ndim(alpha) != 0:
+        return None, ""          # (the repository's tests call NoOp-like proxes with alpha=None)
     a = float(alpha)
 
     def phi(v):
